@@ -38,12 +38,24 @@ def normpath(path):
     return out if len(out) else "."
 
 
-class OsShim:
+class _PathShim:
+    isabs = staticmethod(isabs)
+    normpath = staticmethod(normpath)
+
+    def __getattr__(self, name):           # constants (sep, curdir, ...) and anything else: the real module
+        return getattr(posixpath, name)
+
+
+class _OsShim:
     """stands in for the `os` module inside paramiko.sftp_si"""
-    class path:
-        isabs = staticmethod(isabs)
-        normpath = staticmethod(normpath)
-    sep = "/"
+    path = _PathShim()
+
+    def __getattr__(self, name):
+        import os
+        return getattr(os, name)
+
+
+OsShim = _OsShim()
 
 
 def validate(alphabet="/.ab", maxlen=6):
